@@ -15,6 +15,7 @@ mod c09;
 mod c10;
 mod c11;
 mod c13;
+mod c14;
 mod drive;
 mod m2;
 mod c12;
@@ -50,6 +51,7 @@ fn main() {
                 "C11" => c11::run(&tier),
                 "C12" => c12::run(&tier),
                 "C13" => c13::run(&tier),
+                "C14" => c14::run(&tier),
                 "C15" => c15::run(&tier),
                 "C17" => c17::run(&tier),
                 _ => { eprintln!("unknown property {id}"); std::process::exit(2) }
@@ -59,6 +61,7 @@ fn main() {
             std::process::exit(code);
         },
         Some("m2-selftest") => std::process::exit(m2::selftest()),
+        Some("c14-debug") => { c14::debug_print(); },
         Some("replay") => {
             let id = args[2].clone();
             let doc: serde_json::Value = serde_json::from_str(&std::fs::read_to_string(&args[3]).expect("read replay file")).expect("parse replay");
@@ -78,6 +81,7 @@ fn main() {
                 "C11" => c11::replay(detail),
                 "C12" => c12::replay(detail),
                 "C13" => c13::replay(detail),
+                "C14" => c14::replay(detail),
                 "C15" => c15::replay(detail),
                 "C17" => c17::replay(detail),
                 _ => 2,
